@@ -106,6 +106,17 @@ M = [
  ("engine-book-takes-first-candidate", "src/game/game.rs", "        match maybe_chess_move {\n            Some(result) => Ok(result.clone()),", "        match maybe_chess_move {\n            Some(_result) => Ok(candidates[0].clone()),", "ok", ["C15"]),
  ("engine-book-returns-unlisted-move", "src/game/game.rs", "        let candidates = self\n            .move_generator\n            .generate_moves_and_lazily_update_chess_move_effects(&mut self.board, current_turn);\n\n        let maybe_chess_move", "        let candidates = self\n            .move_generator\n            .generate_moves_and_lazily_update_chess_move_effects(&mut self.board, current_turn.opposite());\n\n        let maybe_chess_move", "violation", ["C15"]),
  ("benign-game-find-swapped-conjuncts", "src/game/game.rs", "            .find(|m| m.from_square() == from_square && m.to_square() == to_square)\n            .ok_or(GameError::InvalidMove)?;", "            .find(|m| m.to_square() == to_square && m.from_square() == from_square)\n            .ok_or(GameError::InvalidMove)?;", "ok", ["C14"]),
+ # ---- more behaviour-preserving refactorings (negated branches, reordered independent statements, temporaries)
+ ("benign-apply-negated-branch", "src/chess_move/standard.rs", "        if captured_piece_and_color.is_some() || piece_to_move == Piece::Pawn {\n            board.reset_halfmove_clock();\n        } else {\n            board.increment_halfmove_clock();\n        }\n", "        if !(captured_piece_and_color.is_some() || piece_to_move == Piece::Pawn) {\n            board.increment_halfmove_clock();\n        } else {\n            board.reset_halfmove_clock();\n        }\n", "ok", ["C03", "C16"]),
+ ("benign-apply-put-before-stacks", "src/chess_move/standard.rs", "        board.increment_fullmove_clock();\n        board.push_en_passant_target(en_passant_target);\n        board.lose_castle_rights(lost_castle_rights);\n        board\n            .put(*to_square, piece_to_move, color_of_piece_to_move)\n            .unwrap();\n\n        Ok(())", "        board\n            .put(*to_square, piece_to_move, color_of_piece_to_move)\n            .unwrap();\n        board.increment_fullmove_clock();\n        board.push_en_passant_target(en_passant_target);\n        board.lose_castle_rights(lost_castle_rights);\n\n        Ok(())", "ok", ["C03", "C05"]),
+ ("benign-game-ending-order", "src/evaluate/mod.rs", "    if board.max_seen_position_count() == 3 {\n        return Some(GameEnding::Draw);\n    }\n\n    if board.halfmove_clock() >= 100 {\n        return Some(GameEnding::Draw);\n    }\n", "    if board.halfmove_clock() >= 100 {\n        return Some(GameEnding::Draw);\n    }\n\n    if board.max_seen_position_count() == 3 {\n        return Some(GameEnding::Draw);\n    }\n", "ok", ["C16", "C06"]),
+ ("benign-game-ending-merged", "src/evaluate/mod.rs", "    if board.max_seen_position_count() == 3 {\n        return Some(GameEnding::Draw);\n    }\n\n    if board.halfmove_clock() >= 100 {\n        return Some(GameEnding::Draw);\n    }\n", "    if board.max_seen_position_count() == 3 || board.halfmove_clock() >= 100 {\n        return Some(GameEnding::Draw);\n    }\n", "ok", ["C16", "C06"]),
+ ("benign-checkmate-no-return-keyword", "src/evaluate/mod.rs", "    return check && candidates.is_empty();", "    candidates.is_empty() && check", "ok", ["C06"]),
+ ("benign-count-temp-variable", "src/board/position_info.rs", "        self.max_seen_position_count_stack.pop();\n        *self.position_count.get(&key).unwrap()", "        self.max_seen_position_count_stack.pop();\n        let remaining = *self.position_count.get(&key).unwrap();\n        remaining", "ok", ["C17"]),
+ ("benign-search-value-first", "src/alpha_beta_searcher/mod.rs", "            beta = min(beta, value);\n            if beta <= alpha {", "            beta = min(value, beta);\n            if alpha >= beta {", "ok", ["C08", "C07"]),
+ ("benign-perft-depth-zero-guard", "src/move_generator/mod.rs", "    let mut count = candidates.len();\n\n    if depth == 0 {\n        return count;\n    }", "    let mut count = candidates.len();\n\n    if depth < 1 {\n        return count;\n    }", "ok", ["C10"]),
+ ("benign-undo-put-before-pops", "src/chess_move/standard.rs", "        board.pop_halfmove_clock();\n        board.decrement_fullmove_clock();\n        board.pop_en_passant_target();\n        board.pop_castle_rights();\n        board\n            .put(\n                *from_square,\n                piece_to_move_back,\n                color_of_piece_to_move_back,\n            )\n            .unwrap();\n\n        Ok(())", "        board\n            .put(\n                *from_square,\n                piece_to_move_back,\n                color_of_piece_to_move_back,\n            )\n            .unwrap();\n        board.pop_castle_rights();\n        board.pop_en_passant_target();\n        board.decrement_fullmove_clock();\n        board.pop_halfmove_clock();\n\n        Ok(())", "ok", ["C04", "C05"]),
+ ("undo-forgets-castle-rights-pop", "src/chess_move/standard.rs", "        board.pop_en_passant_target();\n        board.pop_castle_rights();\n        board\n            .put(\n                *from_square,", "        board.pop_en_passant_target();\n        board\n            .put(\n                *from_square,", "violation", ["C04"]),
  # ---- search value (C08)
  ("cache-key-drops-depth", "src/alpha_beta_searcher/mod.rs", "        board.current_position_hash(),\n        depth,\n        maximizing_player,", "        board.current_position_hash(),\n        0,\n        maximizing_player,", "violation", ["C08"]),
  ("cache-key-drops-side", "src/alpha_beta_searcher/mod.rs", "        depth,\n        maximizing_player,\n        alpha,", "        depth,\n        true,\n        alpha,", "violation", ["C08"]),
